@@ -46,7 +46,7 @@ G_VARS = {
 C_VARS = {
     "Crop": ("TString", 0, "%s"), "Code": ("TString", 0, "%s"), "HarvestYear": ("TInt", 0, "%d"), "HarvestDOY": ("TInt", 0, "%d"),
     "Yield": ("TFloat", 0, "%x"), "Biomass": ("TFloat", 0, "%.2f"), "BBCH_DOY": ("(TArray 100 TInt)", 0, "%d"),
-    "SowDOY": ("TInt", 0, "%d"), "NoSuchVariable": (None, 0, "%s"),
+    "SowDOY": ("TInt", 0, "%d"), "NoSuchVariable": (None, 0, "%s"), "SowDate": ("TString", 0, "%s"),
 }
 
 
@@ -98,10 +98,21 @@ def gen_cases(ctx):
             ann = D(end.year, 2, 29)
         if idx % 10 == 7:  # end date = annual date: ENDE is extended by one day (OUTY >= ENDE)
             ann = D(end.year, end.month, end.day)
+        datefmt = "DateDElong"
+        if idx in (1, 2):  # two-digit years across 31.12.1999 -> 01.01.2000 -> 2001 (century split 50)
+            datefmt = ("DateDEshort", "DateENshort")[idx - 1]
+            sy, start, end = 1998 + idx - 1, D(1998 + idx - 1, 11 - idx, 3 + 11 * idx), D(2001, 2 + idx, 9)
+            ann = D(2001, rnd.choice([1, 6, 12]), rnd.choice([1, 15, 28]))
+        elif idx in (8, 9):
+            datefmt = ("DateENlong", "DateDEshort")[idx - 8]
+            if datefmt.endswith("short") and not (1951 <= sy and end.year + 2 <= 2049):
+                datefmt = "DateENlong"
         if idx == 0:       # the shipped ex3 pattern (F16): annual date 31 Oct, non-leap end year, leap years inside
             sy, start, end, ann = 1980, D(1980, 9, 30), D(1985, 12, 31), D(1985, 10, 31)
         eff = ann + ONE if ann >= end else end
         k = rnd.choice([1, 1, 1, 2, 3, 7, 10, 30, 365, rnd.randrange(1, 401), rnd.randrange(1, 401)])
+        if idx in (1, 2):
+            k = 1
         csv = rnd.random() < 0.5
         # rotation: first entry = previous crop (harvest = start); then crops with growing seasons
         rot = [("SM", None, start)]
@@ -116,20 +127,20 @@ def gen_cases(ctx):
         if unsupported and not any(c["VariableName"] == "PRECO" for c in daily):
             daily.append(wxlib.column("PRECO", "%v", 28)); dspec.append("(Some TBool, 0%nat, 0%nat, 0%nat)")
         yearly, yspec = _cols(rnd, G_VARS, ["AKTUELL"], rnd.randrange(0, 6))
-        crop, cspec = _cols(rnd, C_VARS, ["Crop", "HarvestYear", "HarvestDOY"], rnd.randrange(0, 5))
+        crop, cspec = _cols(rnd, C_VARS, ["Crop", "HarvestYear", "HarvestDOY"] + (["SowDate"] if datefmt != "DateDElong" else []), rnd.randrange(0, 5))
         earlier = ()
         if idx % 5 == 2:
             earlier = ("longer",)
         elif idx % 5 == 4:
             earlier = rnd.choice([("same",), ("longer", "same"), ("longer", "longer")])
-        cases.append({"idx": idx, "earlier": earlier, "sy": sy, "start": start, "end": end, "ann": ann, "eff": eff, "k": k, "csv": csv, "rot": rot,
+        cases.append({"idx": idx, "datefmt": datefmt, "earlier": earlier, "sy": sy, "start": start, "end": end, "ann": ann, "eff": eff, "k": k, "csv": csv, "rot": rot,
                       "daily": daily, "yearly": yearly, "crop": crop, "spec": (dspec, yspec, cspec), "unsupported": unsupported})
     return cases
 
 
 def _describe(cs):
-    return ("case %d%s start=%s EndDate=%s annual=%s OutputIntervall=%d ResultFileFormat=%d rotation harvests=%s columns=%d/%d/%d"
-            % (cs["idx"], (" [after %s run(s) into the same result folder: %s]" % (len(cs["earlier"]), "+".join(cs["earlier"]))) if cs.get("earlier") else "", cs["start"], cs["end"], cs["ann"], cs["k"], 1 if cs["csv"] else 0,
+    return ("case %d%s%s start=%s EndDate=%s annual=%s OutputIntervall=%d ResultFileFormat=%d rotation harvests=%s columns=%d/%d/%d"
+            % (cs["idx"], (" Dateformat=%s" % cs["datefmt"]) if cs.get("datefmt", "DateDElong") != "DateDElong" else "", (" [after %s run(s) into the same result folder: %s]" % (len(cs["earlier"]), "+".join(cs["earlier"]))) if cs.get("earlier") else "", cs["start"], cs["end"], cs["ann"], cs["k"], 1 if cs["csv"] else 0,
                [str(h) for _, _, h in cs["rot"]], len(cs["daily"]), len(cs["yearly"]), len(cs["crop"])))
 
 
@@ -185,8 +196,9 @@ def _run(ctx):
     lines, owner = [], []
     for c in cases:
         p = "r%03d" % c["idx"]
-        cfg = dict(wcfg, WeatherFolder="w", StartYear=c["sy"], EndDate=de(c["end"]),
-                   AnnualOutputDate="%02d%02d" % (c["ann"].day, c["ann"].month), OutputIntervall=c["k"],
+        dfm = c.get("datefmt", "DateDElong")
+        cfg = dict(wcfg, WeatherFolder="w", StartYear=c["sy"], EndDate=wxlib.fdate(c["end"], dfm), Dateformat=dfm, DivideCentury=50,
+                   AnnualOutputDate=wxlib.fannual(c["ann"], dfm), OutputIntervall=c["k"],
                    ResultFileFormat=1 if c["csv"] else 0, ETpot=rnd.choice([1, 2, 3, 4]))
         # a used result folder: one or two earlier runs into the SAME folder (same file names), longer / more records or
         # the same; the files must afterwards hold the records of the last run only
@@ -194,7 +206,7 @@ def _run(ctx):
             pe = "%se%d" % (p, j)
             cfg0 = dict(cfg)
             if kind == "longer":
-                cfg0["EndDate"] = de(min(c["end"] + datetime.timedelta(days=400 + 150 * j), D(hi + 1, 6, 30)))
+                cfg0["EndDate"] = wxlib.fdate(min(c["end"] + datetime.timedelta(days=400 + 150 * j), D(hi + 1, 6, 30)), dfm)
                 cfg0["OutputIntervall"] = 1
             wxlib.write_project(root, pe, cfg0, c["rot"], c["daily"], c["yearly"], c["crop"])
             lines.append(wxlib.batch_line(pe, "WX", "R/" + p)); owner.append(None)
@@ -216,11 +228,11 @@ def _run(ctx):
     return _cache["runs"]
 
 
-def _dates(recs):
+def _dates(recs, datefmt="DateDElong"):
     """day numbers of the first column (AKTUELL) of the records; None when one does not parse"""
     out = []
     for f, ln in recs:
-        d = _pdate(f[0]) if f else None
+        d = wxlib.parse_out_date(f[0], datefmt) if f else None
         if d is None:
             return None
         out.append(daynum(d))
@@ -249,7 +261,7 @@ def correspond(ctx):
         if any(o[t] is None for t in "VYC"):
             c.mismatches.append({"kind": "result-file-missing", "case": _describe(cs)})
             continue
-        dd, yd = _dates(o["V"]), _dates(o["Y"])
+        dd, yd = _dates(o["V"], cs.get("datefmt", "DateDElong")), _dates(o["Y"], cs.get("datefmt", "DateDElong"))
         if dd is None or yd is None:
             c.mismatches.append({"kind": "record-date-unreadable", "case": _describe(cs)})
             continue
@@ -389,7 +401,8 @@ def oracle(ctx, search):
             fails.append(Fail(key="result-file-missing:%d" % cs["idx"], what="a V/Y/C result file is missing", case=desc)); continue
         # ---- daily
         want = [date_of(z) for z in range(daynum(cs["start"]), daynum(cs["eff"]) + 1) if z % cs["k"] == 0]
-        got = [_pdate(f[0]) if f else None for f, ln in o["V"]]
+        dfm = cs.get("datefmt", "DateDElong")
+        got = [wxlib.parse_out_date(f[0], dfm) if f else None for f, ln in o["V"]]
         if not cs["unsupported"] or cs["csv"]:
             if got != want:
                 i = next((i for i, (a, b) in enumerate(zip(got, want)) if a != b), min(len(got), len(want)))
@@ -400,7 +413,7 @@ def oracle(ctx, search):
                 fails.append(Fail(key="daily-order:%d" % cs["idx"], what="daily records not strictly increasing", case=desc))
         # ---- yearly
         wanty = _annual_expected(cs)
-        goty = [_pdate(f[0]) if f else None for f, ln in o["Y"]]
+        goty = [wxlib.parse_out_date(f[0], dfm) if f else None for f, ln in o["Y"]]
         if goty != wanty:
             if goty == _annual_f16(cs) and (ylen(cs["eff"].year) == 366 or any(ylen(y) == 366 for y in range(cs["start"].year, cs["eff"].year + 1))):
                 diffs = sorted(set(goty) ^ set(wanty))
@@ -419,6 +432,14 @@ def oracle(ctx, search):
                 gotc.append((f[0].strip(), D(int(f[1]), 1, 1) + datetime.timedelta(days=int(f[2]) - 1)))
             except (ValueError, IndexError):
                 gotc.append((ln, None))
+        # the sowing date column of the crop records: the rotation's sowing date in the configured date format
+        sd = [j for j, col in enumerate(cs["crop"]) if col["VariableName"] == "SowDate"]
+        if sd and gotc == wantc:
+            sows = [s_ for crp, s_, h in cs["rot"][1:] if h <= cs["eff"]]
+            gots = [wxlib.parse_out_date(f[sd[0]], dfm) if len(f) > sd[0] else None for f, ln in o["C"]]
+            if gots != sows:
+                fails.append(Fail(key="crop-date-column:%d" % cs["idx"], what="crop file sowing dates %s, rotation says %s"
+                                  % ([f[sd[0]].strip() for f, ln in o["C"]][:6], [str(x) for x in sows][:6]), case=desc))
         if gotc != wantc:
             fails.append(Fail(key="crop-records:%d" % cs["idx"], what="crop file: records %s, expected %s"
                               % ([(a, str(b)) for a, b in gotc][:8], [(a, str(b)) for a, b in wantc][:8]), case=desc))
